@@ -58,11 +58,11 @@ def _ub_write(path, doc):
         f.write(data)
 
 
-def _opens(cls, files):
+def _opens(cls, files, **kw):
     """Try to open; returns (True, dump) or (False, error text)."""
     try:
         with env.watchdog(20):
-            r = cls(list(files), "r")
+            r = cls(list(files), "r", **kw)
     except env.StepTimeout:
         return None, "open did not terminate"
     except BaseException as e:  # AssertionError etc. count as refusal, too
@@ -84,7 +84,8 @@ def _opens(cls, files):
 
 def check_bytes(task):
     """All single-byte corruptions of one file in a byte range. Returns (viol|None, n_faults)."""
-    cfg_name, hist, fidx, lo, hi, manifest = task
+    cfg_name, hist, fidx, lo, hi, manifest = task[:6]
+    baseless = len(task) > 6 and task[6]  # open the set without its base (allow_baseless=True)
     cfg = treeexp.CFGS[cfg_name]
     kind = cfg["kind"]
     cls = ih5.record_class(kind)
@@ -95,6 +96,14 @@ def check_bytes(task):
         ok, v = _opens(cls, files)
         if ok is not True or v != view:
             return _viol("valid-set-refused", f"untouched record does not open / differs: {v if ok is not True else 'view'}", cfg_name, hist, None), 0
+        allfiles = files
+        kw = {}
+        if baseless:
+            files, kw = files[1:], {"allow_baseless": True}
+            fidx -= 1
+            ok, v = _opens(cls, files, **kw)
+            if ok is not True:
+                return _viol("valid-set-refused", f"untouched base-less set does not open with allow_baseless=True: {v}", cfg_name, hist, None), 0
         target = Path(str(files[fidx]) + "mf.json") if manifest else files[fidx]
         data = bytearray(target.read_bytes())
         start = 0 if manifest else UB
@@ -111,7 +120,7 @@ def check_bytes(task):
                     f.write(bytes([newb]))
                     f.flush()
                     n += 1
-                    ok, v = _opens(cls, files)
+                    ok, v = _opens(cls, files, **kw)
                     if ok is not False:
                         f.seek(pos)
                         f.write(bytes([orig]))
@@ -120,10 +129,10 @@ def check_bytes(task):
                         return (
                             _viol(
                                 f"corrupt-{what}-byte-accepted",
-                                f"{what} byte {pos} of container #{fidx} ({variant}) altered, record still opens" + ("" if ok else f" ({v})"),
+                                f"{what} byte {pos} of container #{fidx + (1 if baseless else 0)} ({variant}) altered, {'base-less set (allow_baseless=True)' if baseless else 'record'} still opens" + ("" if ok else f" ({v})"),
                                 cfg_name,
                                 hist,
-                                ["byte", fidx, pos, variant, bool(manifest)],
+                                ["byte", fidx + (1 if baseless else 0), pos, variant, bool(manifest), bool(baseless)],
                             ),
                             n,
                         )
@@ -365,6 +374,28 @@ def check_struct(task):
                         n += 1
                         if ok is not False:
                             return _viol("incoherent-set-accepted", f"corrupted set {descr} opens as a record" + ("" if ok else f" ({v})"), cfg_name, hist, descr), n, pos
+                if descr[0] == "remove":
+                    # the same incoherent directory addressed by record name, in every non-creating mode
+                    gone = cf[descr[1]]
+                    os.unlink(gone)
+                    if side(gone).exists():
+                        os.unlink(side(gone))
+                    for mode in ("r", "r+", "a"):
+                        n += 1
+                        r = None
+                        try:
+                            with env.watchdog(20):
+                                r = cls(Path(cd) / "rec", mode)
+                        except env.StepTimeout:
+                            return _viol("open-nonterm", f"open by name ({mode}) did not terminate", cfg_name, hist, descr), n, pos
+                        except BaseException as e:
+                            if isinstance(e, (KeyboardInterrupt, SystemExit)):
+                                raise
+                            continue
+                        finally:
+                            if r is not None:
+                                ih5.discard(r)
+                        return _viol("incoherent-set-accepted", f"directory with container #{descr[1]} removed opens by name with mode {mode}", cfg_name, hist, descr), n, pos
             finally:
                 env.rmtree(cd)
         return None, n, pos
@@ -441,6 +472,12 @@ def run(tier, seed):
             if name == "M" and ms[-1]:
                 for lo in range(0, ms[-1], CH):
                     btasks.append((name, h, len(fs) - 1, lo, lo + CH, True))
+            # the same set without its base, opened with allow_baseless=True: every remaining element is still protected
+            if len(fs) >= 2 and max(fs) <= 20000:
+                for fi, sz in enumerate(fs):
+                    if fi >= 1:
+                        for lo in range(UB, sz, CH):
+                            btasks.append((name, h, fi, lo, lo + CH, False, True))
         resb = pool.map("check_bytes", btasks, chunk=1, item_deadline=600)
         nbytes = 0
         for t, r in zip(btasks, resb):
@@ -465,7 +502,7 @@ def run(tier, seed):
         "same-index substitution by another record, foreign extra container, duplicate under a second name, fork replace / fork both, "
         "duplicated patch_uuid (every pair j<k, links kept consistent), manifest removed/foreign/older/extended/truncated; one additional record per class with a 150 kB dataset "
         "(structural faults; bytes: first and last 2 KiB of every large container completely, stride 4099 in between); byte faults: every payload byte (offset>=1024) of every container and every byte of "
-        "the newest manifest, XOR 0xFF and +1 (manifest also XOR 0x20)" + (" for one 2- and one 3-container record per class" if q else " for all records")
+        "the newest manifest, XOR 0xFF and +1 (manifest also XOR 0x20); the payload byte faults are repeated on the set without its base opened with allow_baseless=True" + (" for one 2- and one 3-container record per class" if q else " for all records")
         + "; non-trivial = a fault that makes the set incoherent (must be refused); positive controls = coherent sets that must open",
         "samples": [{"cfg": recs[len(recs) // 2][0], "history": recs[len(recs) // 2][1], "fault": ["remove", 0]}, {"cfg": btasks[0][0], "history": btasks[0][1], "fault": ["byte", btasks[0][2], btasks[0][3], "xor"]}],
     }
@@ -483,7 +520,7 @@ def replay(data):
     hist = [list(o) for o in inp["history"]]
     f = inp.get("fault")
     if f and f[0] == "byte":
-        v, _ = check_bytes((inp["cfg"], hist, f[1], f[2], f[2] + 1, f[4]))
+        v, _ = check_bytes((inp["cfg"], hist, f[1], f[2], f[2] + 1, f[4], len(f) > 5 and f[5]))
         return v
     v, _, _ = check_struct((inp["cfg"], hist, f))
     return v
